@@ -142,6 +142,8 @@ struct Env {
         void violation(const char *prop, const std::string &cls, const std::string &sig, const std::string &detail,
                        bool model_ok_after = true);
         bool tainted = false;
+        // when set, calls of isal_* entry points that have a deprecated twin with the same signature go to the twin instead
+        bool legacy_api = false;
         // record an observable value (C20 history) and into the event log
         void obs(uint32_t tag, uint64_t v)
         {
